@@ -236,9 +236,10 @@
       '()
       (cons (f (car xs)) (map1 f (cdr xs)))))
 
-(define (map f . xss)
+(define (map f xs . more)
   (letrec
-   ((map-all
+   ((xss (cons xs more))
+    (map-all
      (lambda (xss)
        (if (any? null? xss)
            '()
@@ -247,9 +248,10 @@
 
     (map-all xss)))
 
-(define (for-each f . xss)
+(define (for-each f xs . more)
   (letrec
-   ((for-each-all
+   ((xss (cons xs more))
+    (for-each-all
      (lambda (xss)
        (if (any? null? xss)
            void
